@@ -550,6 +550,19 @@ class PrimMixin:
         self.use("numpy C API PyArray_ZEROS: a fresh zero-filled 1-d array of the requested length and type")
         return self._alloc_const(n, kind, 0, st, fr, node)
 
+    def _gl(self, which, args):
+        """gl_nodes / gl_weights(x1, x2, n): the arrays returned by the Gauss-Legendre routine, named as uninterpreted
+        array-valued functions of its arguments (the routine is a deterministic function of them)"""
+        x1, x2, n = to_z3(args[0], "real"), to_z3(args[1], "real"), to_z3(args[2], "int")
+        f = ufunc("GL_" + which, R, R, I, z3.ArraySort(I, R))
+        return SpecArr("real", n, f(x1, x2, n))
+
+    def p_builtin_gl_nodes(self, args, kw, st, fr, node):
+        return self._gl("nodes", args)
+
+    def p_builtin_gl_weights(self, args, kw, st, fr, node):
+        return self._gl("weights", args)
+
     def p_builtin_approx(self, args, kw, st, fr, node):
         """equality over the reals (the run-time evaluator allows floating-point rounding)"""
         return to_z3(args[0], "real") == to_z3(args[1], "real")
@@ -698,6 +711,8 @@ class PrimMixin:
 
     def p_builtin_apply(self, args, kw, st, fr, node):
         """apply(fname, x...) : the uninterpreted function standing for a parameter of function type"""
+        if any(self.is_arr(a, st) for a in args[1:]):
+            return self.call_uninterpreted(args[0], list(args[1:]), st, fr, node)
         f = ufunc("param_" + args[0], *([R] * len(args)))
         return f(*[to_z3(a, "real") for a in args[1:]])
 
